@@ -493,6 +493,7 @@ type Auto struct {
 	NoAck     bool
 	out       chan mqttp.IFace
 	gone      chan struct{} // closed when the reader has seen the end of the connection: the sender goroutine ends too
+	EndErr    string        // how the reading ended when it was not the end of the stream (a decode error)
 }
 
 func (c *Client) Auto(noAck bool) *Auto {
@@ -533,6 +534,9 @@ func (a *Auto) loop() {
 		a.mu.Lock()
 		if err != nil {
 			a.closed = true
+			if err != io.EOF && err != errTimeout {
+				a.EndErr = err.Error()
+			}
 			a.mu.Unlock()
 			a.wake()
 			return
